@@ -379,6 +379,31 @@ def form_paths(rng, tier, tree):
                 cs.append(K.mk(tree, m, '/form-get-method' + q, [('Origin', 'http://a')] if rng.chance(1, 2) else [], entry=e, kind='form-get'))
     return cs
 
+INJECT = ['X-Frame-Options: DENY', 'Cache-Control: public', 'X-Content-Type-Options: sniff', 'Accept-Ranges: none', 'Vary: *', 'Accept-CH: none', 'Set-Cookie: a=b', 'X: y\r\n\r\nHTTP/1.1 200 OK']
+def injected_lines(rng, tier, tree):
+    """request text the handlers percent-decode, parse or echo (query keys and values, path, form fields, part names and file names, Origin,
+    requested header lists) that carries an ENCODED line break followed by a line naming one of the fixed headers: whatever an answer
+    reflects, a client must not be able to add a second X-Frame-Options or Cache-Control line to its head"""
+    cs = []
+    f0 = _p(sorted(tree.files)[0])
+    for inj in (INJECT if tier != 'quick' else [INJECT[0], INJECT[1], rng.choice(INJECT[2:])]):
+        for br in ('%0D%0A', '%0d%0a', '%0A', '%0D', '%250D%250A', '%E5%98%8A%E5%98%8D'):
+            if tier == 'quick' and br not in ('%0D%0A', '%0A') and not rng.chance(1, 3): continue
+            e = br + inj.replace(' ', '%20').replace('\r\n', br)
+            for tg in ('/file-upload/initiate?name=a.txt' + e + '&lastModified=1&size=2', '/file-upload/initiate?name=a&lastModified=1' + e + '&size=2', '/file-upload/initiate?name=a&lastModified=1&size=2' + e,
+                       '/file-upload/initiate?name=a&lastModified=1&size=2&x' + e + '=1', '/form-get-method?a=b' + e, '/form-get-method?a' + e + '=b', f0 + '?x=' + e, f0 + e, '/' + e, f0 + '#' + e, '/nothing' + e):
+                m = 'POST' if 'initiate' in tg else 'GET'
+                for en in (ENTRIES if tier != 'quick' or 'name=a.txt' in tg else (_e4(rng),)):
+                    cs.append(K.mk(tree, m, tg, [('Origin', 'http://a')] if rng.chance(1, 3) else [], entry=en, kind='injected-line'))
+            cs.append(K.mk(tree, 'POST', UE, [('Content-Type', 'application/x-www-form-urlencoded')], ('a=b' + e + '&c' + e + '=d').encode(), entry=_e4(rng), kind='injected-line'))
+            cs.append(K.mk(tree, 'GET', f0, [('Origin', 'http://a' + e)], entry=_e4(rng), kind='injected-line'))
+            cs.append(K.mk(tree, 'OPTIONS', f0, [('Origin', 'http://a'), ('Access-Control-Request-Method', 'GET' + e), ('Access-Control-Request-Headers', 'X-A' + e)], entry=_e4(rng), kind='injected-line'))
+        raw = inj.encode().replace(b'\\r\\n', b'\r\n')
+        for h in (b'Content-Disposition: form-data; name="a\r\n' + raw + b'"', b'Content-Disposition: form-data; name="a"; filename="f\r\n' + raw + b'"', b'Content-Disposition: form-data; name="a"\r\n' + raw):
+            b = b'--B\r\n' + h + b'\r\n\r\nv\r\n' + raw + b'\r\n--B--\r\n'
+            cs.append(K.mk(tree, 'POST', MP, [('Content-Type', 'multipart/form-data; boundary=B')], b, entry=_e4(rng), kind='injected-line'))
+    return cs
+
 def error_paths(rng, tier, tree):
     """the answers the server makes up itself: targets not in origin form x methods, failing handlers x methods x messages, read
     errors on both entry points, request buffers smaller than the request, requests larger than the buffer, transports that fail"""
